@@ -17,7 +17,7 @@
 const char *const dsim_property = "C05";
 namespace {
 constexpr int MAXC = 8, MAXSTEP = 6, NF = 4;
-enum Op { PAUSE = 0, RESOLVE_DISCARD, RESOLVE_AWAIT, AWAIT_FUT, DETACH_CHILD, AWAIT_CHILD, START_CHILD, LOCK_REL_DISCARD, LOCK_REL_AWAIT, Q_PUSH, Q_POP, MERGE_DISCARD, CSP_DISCARD, CSP_AWAIT, CSP_HOLD, NOPS };
+enum Op { PAUSE = 0, RESOLVE_DISCARD, RESOLVE_AWAIT, AWAIT_FUT, DETACH_CHILD, AWAIT_CHILD, START_CHILD, LOCK_REL_DISCARD, LOCK_REL_AWAIT, Q_PUSH, Q_POP, MERGE_DISCARD, CSP_DISCARD, CSP_AWAIT, CSP_HOLD, INSTALL_CALL, NOPS };
 struct StepD { int op, arg; };
 struct Script { int n; StepD st[MAXSTEP]; };
 
@@ -27,6 +27,7 @@ struct Model {
     St state[MAXC]; bool active[MAXC]; int segs[MAXC]; int parent[MAXC]; bool spawned[MAXC];
     std::vector<int> running;                 // nesting of segments on this thread (nested start())
     std::vector<bool> in_nested_call;         // parallel to running: the coroutine is inside a start() call
+    std::vector<bool> draining;               // parallel to running: the coroutine is inside coro_queue::install_queue_and_call(), which flushes the ready queue before it returns
     std::deque<std::vector<int>> ready;       // FIFO of batches
     std::set<int> direct;                     // coroutines that may run next as a direct transfer / direct resume
     std::vector<int> carried;                 // coroutines carried by a suspend point that ordinary code discarded: resumed one by one under one queue
@@ -59,9 +60,12 @@ struct Model {
         if (!ok) {
             // inside a nested start() the ready queue may only be reached through a transfer chain (pause, awaited suspend point):
             // once a segment ended by suspending on something pending, control is back in the starter and nothing else may start
+            // (an explicit coro_queue::install_queue_and_call() made by the running coroutine is different: its contract is to flush the
+            // ready queue - in queue order - before it returns)
+            bool drain_ok = !running.empty() && draining.back();
             bool nested_ok = !running.empty() && in_nested_call.back() && last_end_transfers;
-            if (!running.empty() && in_nested_call.back() && !last_end_transfers) dsim::fail("C05.S1_drained_inside_nested_start", "coroutine %d taken from the ready queue inside the start() call of coroutine %d after the started chain had suspended: coroutine %d had not suspended", x, running.back(), running.back());
-            if (!running.empty() && !nested_ok) dsim::fail("C05.S1_started_before_suspension", "coroutine %d started while coroutine %d is still running (made ready by a discarded operation)", x, running.back());
+            if (!drain_ok && !running.empty() && in_nested_call.back() && !last_end_transfers) dsim::fail("C05.S1_drained_inside_nested_start", "coroutine %d taken from the ready queue inside the start() call of coroutine %d after the started chain had suspended: coroutine %d had not suspended", x, running.back(), running.back());
+            if (!drain_ok && !running.empty() && !nested_ok) dsim::fail("C05.S1_started_before_suspension", "coroutine %d started while coroutine %d is still running (made ready by a discarded operation)", x, running.back());
             if (ready.empty() || !in_ready(x)) dsim::fail("C05.S2_not_ready", "coroutine %d resumed but it is not in the ready queue (resumed twice, or never made ready)", x);
             auto &h = ready.front(); auto it = std::find(h.begin(), h.end(), x);
             if (it == h.end()) dsim::fail("C05.S3_fifo", "coroutine %d resumed before the coroutines made ready by an earlier operation (head batch starts with %d)", x, h[0]);
@@ -72,13 +76,13 @@ struct Model {
             if (!pause_snap[i].empty()) dsim::fail("C05.S4_pause", "coroutine %d continues after pause() although coroutine %d queued before the pause has not run", x, pause_snap[i][0]);
             pause_owner.erase(pause_owner.begin() + i); pause_snap.erase(pause_snap.begin() + i); break;
         }
-        active[x] = true; state[x] = RUNNING; segs[x]++; running.push_back(x); in_nested_call.push_back(false);
+        active[x] = true; state[x] = RUNNING; segs[x]++; running.push_back(x); in_nested_call.push_back(false); draining.push_back(false);
         dsim::event("seg_begin", x);
     }
     void seg_end(int x, bool transfers) {
         last_end_transfers = transfers;
         if (running.empty() || running.back() != x) dsim::fail("C05.harness", "segment end of %d but top of running stack differs", x);
-        active[x] = false; running.pop_back(); in_nested_call.pop_back();
+        active[x] = false; running.pop_back(); in_nested_call.pop_back(); draining.pop_back();
         dsim::event("seg_end", x);
     }
     void all_ready(std::vector<int> &out) { for (auto &b : ready) for (int y : b) out.push_back(y); }
@@ -160,6 +164,18 @@ cocls::async<void> coro(int id) {
             }
             discard_effect(id, rd);
             sp.clear();
+            break; }
+        case INSTALL_CALL: {
+            // the running coroutine calls coro_queue::install_queue_and_call(fn) itself (a queue is already installed): fn makes coroutines
+            // ready by a discarded resolution; the call flushes the ready queue before it returns - and must leave this coroutine in
+            // coroutine mode, so that what it makes ready afterwards still waits for it to suspend
+            Readied rd; bool res = !M.fut_resolved[a];
+            if (res) { M.fut_resolved[a] = true; rd.m = M.fut_waiters[a]; M.fut_waiters[a].clear(); }
+            M.draining.back() = true;
+            cocls::coro_queue::install_queue_and_call([&] { if (res) { discard_effect(id, rd); proms[a](); } });
+            M.draining.back() = false;
+            if (!M.ready.empty()) dsim::fail("C05.S6_not_drained", "install_queue_and_call() returned inside coroutine %d but coroutine %d is still queued", id, M.ready.front()[0]);
+            if (!cocls::coro_queue::is_active()) dsim::fail("C05.coroutine_mode_lost", "after a nested install_queue_and_call() coroutine %d is still running but the thread is no longer in coroutine mode", id);
             break; }
         case AWAIT_FUT: {
             if (M.fut_resolved[a]) { co_await *futs[a]; break; }
@@ -259,7 +275,7 @@ void single_thread() {
     int bare_fut = dsim::choose(NF + 2);        // < NF: a generator body stepped from ordinary code resolves that future and awaits the suspend point
     for (int i = 0; i < M.ncoro; i++) { M.sc[i].n = dsim::choose(MAXSTEP + 1); for (int k = 0; k < M.sc[i].n; k++) { M.sc[i].st[k].op = dsim::choose(NOPS); int op = M.sc[i].st[k].op; M.sc[i].st[k].arg = (op == DETACH_CHILD || op == AWAIT_CHILD || op == START_CHILD) ? i + 1 + (int)dsim::choose(3) : (int)dsim::choose(NF); } }
     dsim::plan_note("single-thread n=%d", M.ncoro);
-    for (int i = 0; i < M.ncoro; i++) { dsim::plan_note(" C%d:", i); for (int k = 0; k < M.sc[i].n; k++) dsim::plan_note("%c%d", "prRfdasmMuoGcCh"[M.sc[i].st[k].op], M.sc[i].st[k].arg); }
+    for (int i = 0; i < M.ncoro; i++) { dsim::plan_note(" C%d:", i); for (int k = 0; k < M.sc[i].n; k++) dsim::plan_note("%c%d", "prRfdasmMuoGcChI"[M.sc[i].st[k].op], M.sc[i].st[k].arg); }
     cocls::future<void> fstore[NF]; cocls::mutex mxs; auto qs = std::make_unique<cocls::queue<long>>();
     for (int f = 0; f < NF; f++) { futs[f] = &fstore[f]; proms[f] = fstore[f].get_promise(); }
     mx = &mxs; q = qs.get();
